@@ -72,16 +72,22 @@ def generate(rng, tier):
                        ("2 weeks + 3 days", 17 * 86400), ("1 hour - 3 hours + 4 hours", 2 * 3600)):
         cases.append(exec_case(text, "en", pre=[rule, {"op": "delete_rule", "lang": "en", "name": "greeting"}],
                                kind="pinned-after-rule-history", expect=secs, out=render(secs, "en")))
-    # durations held in variables and written side by side add up, every operand included (two to six operands)
-    vals = [("a", "1 year", LEN["year"]), ("b", "2 months", 2 * LEN["month"]), ("c", "3 weeks", 3 * LEN["week"]), ("d", "4 days", 4 * 86400),
-            ("e", "5 hours", 5 * 3600), ("f", "6 minutes", 360)]
-    for k in (2, 3, 4, 5, 6):
-        defs = "\n".join("%s = %s" % (n, t) for n, t, _ in vals[:k])
-        names = " ".join(n for n, _, _ in vals[:k])
-        tot = sum(s_ for _, _, s_ in vals[:k])
-        cases.append(exec_case(defs + "\n" + names, "en", kind="variables-side-by-side", expect=tot, out=render(tot, "en"), lastline=True))
-        cases.append(exec_case(defs + "\ntotal = " + names + "\ntotal 7 seconds", "en", kind="variables-side-by-side", expect=tot + 7,
-                               out=render(tot + 7, "en"), lastline=True))
+    # durations held in variables and written side by side add up, every operand included (two to nine operands, more than the
+    # longest combining pattern of the table has parts), in both languages
+    vals = {"en": [("a", "1 year", LEN["year"]), ("b", "2 months", 2 * LEN["month"]), ("c", "3 weeks", 3 * LEN["week"]), ("d", "4 days", 4 * 86400),
+                   ("e", "5 hours", 5 * 3600), ("f", "6 minutes", 360), ("g", "1 second", 1), ("h", "8 seconds", 8), ("i", "2 days", 2 * 86400)],
+            "tr": [("a", "1 yıl", LEN["year"]), ("b", "2 ay", 2 * LEN["month"]), ("c", "3 hafta", 3 * LEN["week"]), ("d", "4 gün", 4 * 86400),
+                   ("e", "5 saat", 5 * 3600), ("f", "6 dakika", 360), ("g", "1 saniye", 1), ("h", "8 saniye", 8), ("i", "2 gün", 2 * 86400)]}
+    for lang in ("en", "tr"):
+        for k in (2, 3, 4, 5, 6, 7, 8, 9):
+            vs = vals[lang][:k]
+            defs = "\n".join("%s = %s" % (n_, t) for n_, t, _ in vs)
+            names = " ".join(n_ for n_, _, _ in vs)
+            tot = sum(s_ for _, _, s_ in vs)
+            cases.append(exec_case(defs + "\n" + names, lang, kind="variables-side-by-side", expect=tot, out=render(tot, lang), lastline=True))
+            if lang == "en":
+                cases.append(exec_case(defs + "\ntotal = " + names + "\ntotal 7 seconds", "en", kind="variables-side-by-side", expect=tot + 7,
+                                       out=render(tot + 7, "en"), lastline=True))
     for lang, text, secs in (("en", "3 hours 20 minutes - 1 hour 30 minutes", 6600), ("tr", "3 saat 20 dakika - 1 saat 30 dakika", 6600),
                              ("en", "1 day 2 hours - 30 minutes 10 seconds", 93600 - 1810), ("tr", "1 gün 2 saat - 30 dakika 10 saniye", 93600 - 1810),
                              ("en", "2 weeks 1 day + 1 day 2 hours 3 minutes", 15 * 86400 + 86400 + 7380),
